@@ -131,7 +131,7 @@ def run(tier):
   wide = alphabet + [('x', 4), ('x', 5), ('x', 6)]
   hist = []
   # exhaustively: every history of length <= 3 that ends in a read (quick) / <= 4 (thorough)
-  maxlen = 3 if tier == 'quick' else 4
+  maxlen = common.sz(tier, 3, 4)
   for ln in range(1, maxlen + 1):
     for h in itertools.product(alphabet, repeat=ln):
       if h[-1][0] == 'r':
@@ -151,7 +151,7 @@ def run(tier):
     hist.append([('x', 1), ('r', m), ('y', 2), ('x', 7), ('r', m)])
     hist.append([('y', 2), ('x', 7), ('r', m), ('y', 0), ('x', 1), ('r', m)])
     hist.append([('y', 2), ('x', 8), ('r', m), ('x', 7), ('r', m), ('y', 1), ('x', 2), ('r', m), ('y', 2), ('r', m)])
-  for _ in range(400 if tier == 'quick' else 20000):
+  for _ in range(common.sz(tier, 400, 20000)):
     n = rng.randint(4, 14)
     h = [rng.choice(wide) if rng.random() < 0.55 else ('r', rng.choice(READS)) for _ in range(n)]
     h.append(('r', rng.choice(READS)))
